@@ -664,3 +664,44 @@ func isMergerTable(g *ssa.Global) bool {
 	sig, ok := m.Elem().Underlying().(*types.Signature)
 	return ok && sig.Params().Len() == 3 && sig.Results().Len() == 2
 }
+
+// ---------------------------------------------------------------------------
+// EXTMEMO: a service is resolved once. applyServiceExtends records its result under the service's name so that the
+// next visit (ApplyExtends ranges over the services map; another service may extend this one) finds a service
+// without `extends` and returns it. The record is only found again if it is written into the map the service was
+// LOOKED UP in - the services the function was handed - and not into the services of the extended file, which the
+// same variable may have been re-bound to. A service resolved twice has its own lists merged twice (the mergers
+// rewrite their operands in place), and which service is visited first is decided by a map range.
+// Every map update of the function that stores a value it returns writes into its services parameter.
+// ---------------------------------------------------------------------------
+func (c *Ctx) EXTMEMO(rule string) []report.Obligation {
+	var out []report.Obligation
+	fn := c.P.Func("loader.applyServiceExtends")
+	if fn == nil {
+		return append(out, anchorViolation(rule, "loader.applyServiceExtends"))
+	}
+	returned := map[ssa.Value]bool{}
+	for _, r := range returnsOf(fn) {
+		if len(r.Results) > 0 {
+			returned[unwrapIface(r.Results[0])] = true
+			returned[r.Results[0]] = true
+		}
+	}
+	n := 0
+	for _, b := range fn.Blocks {
+		for _, in := range b.Instrs {
+			mu, ok := in.(*ssa.MapUpdate)
+			if !ok || !(returned[mu.Value] || returned[unwrapIface(mu.Value)]) {
+				continue
+			}
+			n++
+			_, isParam := mu.Map.(*ssa.Parameter)
+			out = append(out, verdict(isParam, rule, c.P.FuncID(fn)+" :: the resolved service is recorded in the services it was looked up in", c.P.InstrPos(in),
+				"the map written is the services parameter", "the map written is "+c.P.KeyTerm(mu.Map, 1)+", not the services the function was handed: when the base comes from another file the record lands in THAT file's services, the service keeps its `extends` here and is resolved again on the next visit - its own lists, already rewritten by the first merge, are merged a second time (extra_hosts [x, y] becomes [x, y, y] and the load fails) when, and only when, a map range happens to visit a dependent first"))
+		}
+	}
+	if n == 0 {
+		out = append(out, bad(rule, c.P.FuncID(fn)+" :: the resolved service is recorded", c.P.Pos(fn.Pos()), "no map update stores the value the function returns: a resolved service is not recorded at all, every visit resolves it again"))
+	}
+	return out
+}
